@@ -100,9 +100,58 @@ static struct hnode *mknode(int id, int key)
 
 /* ---- recording allocator (custom cds_lfht_alloc) -------------------------------------------------- */
 #define N_LIVE 200		/* live blocks of the custom allocator */
-static void *ra_malloc(void *st, size_t n) { (void)st; vrt_note_inc(N_LIVE); return malloc(n); }
-static void *ra_calloc(void *st, size_t n, size_t m) { (void)st; vrt_note_inc(N_LIVE); return calloc(n, m); }
-static void *ra_realloc(void *st, void *p, size_t n) { (void)st; if (!p) vrt_note_inc(N_LIVE); return realloc(p, n); }
+/* their addresses: a block handed to free() must have come from this allocator (bookkeeping invisible to the memory model) */
+#define N_LIVEP_MAX 16384	/* open-addressing set of block addresses (tombstone = 1) */
+static unsigned long ra_livep[N_LIVEP_MAX];
+static unsigned ra_hash(const void *p) { return (unsigned)(((unsigned long)p >> 4) * 2654435761UL) & (N_LIVEP_MAX - 1); }
+static void ra_track(void *p)
+{
+	unsigned h, n;
+	int done = 0;
+
+	if (!p)
+		return;
+	vrt_note_inc(N_LIVE);
+	vrt_quiet_begin();
+	for (h = ra_hash(p), n = 0; n < N_LIVEP_MAX && !done; n++, h = (h + 1) & (N_LIVEP_MAX - 1))
+		if (ra_livep[h] <= 1) {
+			ra_livep[h] = (unsigned long)p;
+			done = 1;
+		}
+	vrt_quiet_end();
+	if (!done)
+		vrt_internal("recording allocator: too many live blocks");
+}
+static void ra_untrack(void *p, const char *who)
+{
+	unsigned h, n;
+	int done = 0;
+
+	vrt_quiet_begin();
+	for (h = ra_hash(p), n = 0; n < N_LIVEP_MAX && !done && ra_livep[h]; n++, h = (h + 1) & (N_LIVEP_MAX - 1))
+		if (ra_livep[h] == (unsigned long)p) {
+			ra_livep[h] = 1;
+			done = 1;
+		}
+	vrt_quiet_end();
+	if (done)
+		vrt_note_set(N_LIVE, vrt_note_get(N_LIVE) - 1);
+	else
+		vrt_fail("custom allocator: %s was handed block %p, which this allocator never returned (or already released)", who, p);
+}
+static void *ra_malloc(void *st, size_t n) { void *p = malloc(n); (void)st; ra_track(p); return p; }
+static void *ra_calloc(void *st, size_t n, size_t m) { void *p = calloc(n, m); (void)st; ra_track(p); return p; }
+static void *ra_realloc(void *st, void *p, size_t n)
+{
+	void *q;
+
+	(void)st;
+	if (p)
+		ra_untrack(p, "realloc()");
+	q = realloc(p, n);
+	ra_track(q);
+	return q;
+}
 static void *ra_aligned(void *st, size_t al, size_t n)
 {
 	void *p;
@@ -110,14 +159,14 @@ static void *ra_aligned(void *st, size_t al, size_t n)
 	(void)st;
 	if (posix_memalign(&p, al, n))
 		return NULL;
-	vrt_note_inc(N_LIVE);
+	ra_track(p);
 	return p;
 }
 static void ra_free(void *st, void *p)
 {
 	(void)st;
 	if (p)
-		vrt_note_set(N_LIVE, vrt_note_get(N_LIVE) - 1);
+		ra_untrack(p, "free()");
 	free(p);
 }
 static struct cds_lfht_alloc rec_alloc = { ra_malloc, ra_calloc, ra_realloc, ra_aligned, ra_free, NULL };
